@@ -447,7 +447,8 @@ def gen_probe(rng, mem, mods):
             return "math", "math.count(%d) == %d" % (c, mem.count(bytes([c])) + (1 if perturb else 0))
         if k == 5:
             lo, hi = sorted([rng.below(256), rng.below(256)])
-            return "math", "math.in_range(%d.0, %d.0, %d.0)" % (rng.below(256), lo, hi)
+            x = rng.choice([lo, hi, max(0, lo - 1), hi + 1, rng.below(256)])
+            return "math", "math.in_range(%d.0, %d.0, %d.0)" % (x, lo, hi)
         if k == 6:
             # mode: smallest most common byte
             if sl:
@@ -502,6 +503,31 @@ def gen_string(rng, name):
     return {"name": name, "kind": "regex", "node": node, "ci": ci, "da": da, "mods": mods}
 
 
+def hex_member7(rng, toks, alphabet):
+    """a member of the language of a hex token list; jumps take their bounds more often than not"""
+    out = bytearray()
+    for t in toks:
+        if t[0] == "j":
+            f, to = t[1], t[2]
+            c = rng.below(4)
+            if to is None:
+                n = f + rng.choice([0, 0, 1, 2, 5])
+            elif c == 0:
+                n = f
+            elif c == 1:
+                n = to
+            elif c == 2:
+                n = max(f, to - 1)
+            else:
+                n = rng.range(f, to)
+            out += rng.bytes(min(n, 40), alphabet)
+        elif t[0] == "alt":
+            out += hex_member7(rng, rng.choice(t[1]), alphabet)
+        else:
+            out += _hir.hex_member(rng, [t], alphabet)
+    return bytes(out)
+
+
 def member(rng, s, alphabet):
     k = s["kind"]
     if k == "text":
@@ -509,7 +535,7 @@ def member(rng, s, alphabet):
         e, w = rng.choice(encs)
         return e[:40], w
     if k == "hex":
-        return _hir.hex_member(rng, s["toks"], alphabet)[:40], False
+        return hex_member7(rng, s["toks"], alphabet)[:48], False
     m = s["mods"]
     b = c03.sample(rng, s["node"], s["ci"] or m["nocase"], s["da"], alphabet)[:30]
     if m["wide"] and (not m["ascii"] or rng.chance(1, 2)):
@@ -517,22 +543,30 @@ def member(rng, s, alphabet):
     return b, False
 
 
-def gen_input(rng, strings, limit=72):
+def gen_input(rng, strings, limit=72, hints=None):
+    """strings: [(key, string)]; hints (out): [(key, offset, length)] of the members spliced in unmodified"""
     if not strings:
         return rng.bytes(rng.range(0, 12), ALPHA)
     parts, total = [], 0
     alphabet = ALPHA
     while total < limit - 12:
         r = rng.below(10)
-        s = rng.choice(strings)
+        key, s = rng.choice(strings)
         if r < 6:
             m, w = member(rng, s, alphabet)
+            exact = True
             if r == 5 and m:
                 m = c01.near_miss(rng, m)
+                exact = False
+            pre = b""
             if rng.chance(1, 2):
-                m = c01.delim(rng, w) + m + c01.delim(rng, w)
+                pre = c01.delim(rng, w)
+                m = pre + m + c01.delim(rng, w)
             if parts and rng.chance(1, 5) and len(m) > 1:
                 m = m[rng.range(1, len(m) - 1):]
+                exact = False
+            if exact and hints is not None and total + len(pre) < limit:
+                hints.append((key, total + len(pre), len(m) - len(pre)))
         else:
             m = rng.bytes(rng.range(1, 4), alphabet)
         parts.append(m)
@@ -542,37 +576,78 @@ def gen_input(rng, strings, limit=72):
     return b"".join(parts)[:limit + 24]
 
 
+def hinted_atom(rng, v, o, l):
+    """conditions aimed at the boundaries of a (probable) match of string v at offset o"""
+    k = rng.below(8)
+    d = rng.choice([0, 0, 0, 1, -1])
+    o1 = max(0, o + d)
+    if k == 0:
+        return ("varat", v, ("int", o1))
+    if k == 1:
+        a = rng.choice([0, o, max(0, o - 1), o + 1])
+        b = rng.choice([o, o + 1, max(0, o - 1), o + l, 1000])
+        a, b = min(a, b), max(a, b)
+        return ("bin", rng.choice(["eq", "ge", "gt"]), ("countin", v, ("int", a), ("int", b)), ("int", rng.choice([0, 1, 1, 2])))
+    if k == 2:
+        a = rng.choice([0, o, o + 1, max(0, o - 1)])
+        b = rng.choice([o, max(0, o - 1), o + 1])
+        a, b = min(a, b), max(a, b)
+        return ("varin", v, ("int", a), ("int", b))
+    if k == 3:
+        return ("bin", rng.choice(["eq", "le", "lt"]), ("offset", v, ("int", rng.choice([1, 1, 2]))), ("int", o1))
+    if k == 4:
+        return ("bin", "eq", ("length", v, ("int", 1)), ("int", max(0, l + rng.choice([0, 0, 1, -1]))))
+    if k == 5:
+        return ("forrange", "any", None, ("int", max(0, o - 1)), ("int", o + 1), ("varat", v, ("bound", 0)))
+    if k == 6:
+        return ("bin", rng.choice(["eq", "ge"]), ("count", v), ("int", rng.choice([1, 2, 3])))
+    return ("forlist", rng.choice(["any", "all", "none"]), None, [("int", o1), ("int", o + l)], ("varat", v, ("bound", 0)))
+
+
 def gen_case(rng, kf_global=False):
     nns = rng.range(1, 2)
     nrules = rng.range(1, 4)
     rules, ord_count = [], 0
-    all_strings = []
+    keyed = []
+    # 1. rules and their strings
     for i in range(nrules):
-        ns = rng.below(nns)
         kind = rng.below(12)
-        is_global = kind < 2
-        is_private = kind in (1, 2, 3)
-        name = "r%d" % i
         nstr = rng.choice([0, 1, 1, 2, 2, 3])
         strings = [gen_string(rng.fork("s%d_%d" % (i, k)), "_s%d" % k) for k in range(nstr)]
-        all_strings += strings
+        keyed += [((i, k), s) for k, s in enumerate(strings)]
+        r = {"ns": rng.below(nns), "name": "r%d" % i, "global": kind < 2, "private": kind in (1, 2, 3),
+             "strings": strings, "id": i}
+        if not r["global"]:
+            r["ord_index"] = ord_count
+            ord_count += 1
+        rules.append(r)
+    # 2. inputs, remembering where members were put
+    hints = [[] for _ in range(3)]
+    inputs = [gen_input(rng.fork("i%d" % k), keyed, hints=hints[k]) for k in range(3)]
+    all_hints = [h for hs in hints for h in hs]
+    # 3. conditions
+    for i, r in enumerate(rules):
+        strings, nstr, ns, is_global = r["strings"], len(r["strings"]), r["ns"], r["global"]
         g = cond.Gen(rng, max(1, nstr), 40, (), max_depth=3)
-        earlier = [r for r in rules if r["ns"] == ns]
-        e_ord = [r for r in earlier if not r["global"]]
-        e_glob = [r for r in earlier if r["global"]]
+        earlier = [x for x in rules[:i] if x["ns"] == ns]
+        e_ord = [x for x in earlier if not x["global"]]
+        e_glob = [x for x in earlier if x["global"]]
+        mine = [(k[1], o, l) for k, o, l in all_hints if k[0] == i]
 
         def leaf():
-            c = rng.below(10)
-            if c < 5 and nstr:
+            c = rng.below(12)
+            if c < 3 and mine:
+                return hinted_atom(rng, *rng.choice(mine))
+            if c < 6 and nstr:
                 return g.gbool(rng.range(0, 3))
-            if c < 7 and e_ord and (not is_global or kf_global):
-                r = rng.choice(e_ord)
-                return ("rule", r["ord_index"], r["name"])
-            if c == 7 and e_glob:
+            if c < 8 and e_ord and (not is_global or kf_global):
+                x = rng.choice(e_ord)
+                return ("rule", x["ord_index"], x["name"])
+            if c == 8 and e_glob:
                 return ("ruleg", rng.choice(e_glob)["name"])
             if nstr:
                 return ("var", rng.below(nstr))
-            if c == 8:
+            if c == 9:
                 return ("bin", rng.choice(list(cond.BIN_CMP)), ("filesize",), ("int", rng.choice([0, 10, 40, 80])))
             return ("bool", rng.chance(2, 3))
 
@@ -600,13 +675,7 @@ def gen_case(rng, kf_global=False):
         tail = nstr > 0 and not rng.chance(1, 6)
         if tail:
             c = ("and", [c, ("for", "all", None, list(range(nstr)), ("bin", "ge", ("count", None), ("int", 0)))])
-        r = {"ns": ns, "name": name, "global": is_global, "private": is_private, "strings": strings, "cond": c,
-             "id": len(rules), "tail": tail}
-        if not is_global:
-            r["ord_index"] = ord_count
-            ord_count += 1
-        rules.append(r)
-    inputs = [gen_input(rng.fork("i%d" % k), all_strings) for k in range(3)]
+        r["cond"], r["tail"] = c, tail
     case = {"rules": rules, "nns": nns, "inputs": [m.hex() for m in inputs], "imports": [], "split": rng.chance(1, 4)}
     return case
 
@@ -615,7 +684,7 @@ def add_probes(rng, case, mods):
     """append 1-2 module probe rules (conditions outside the Gallina dialect: compared boreal vs libyara only)"""
     mem = bytes.fromhex(case["inputs"][0])
     imports = set()
-    for k in range(rng.range(1, 2)):
+    for k in range(rng.range(1, 3)):
         m, text = gen_probe(rng.fork("p%d" % k), mem, mods)
         if m is None:
             continue
@@ -670,7 +739,7 @@ class C07(Prop):
         self.stats = {"programs": 0, "disagreements_checked": 0}
 
     def budget(self, tier):
-        return 320 if tier == "quick" else 5200
+        return 480 if tier == "quick" else 5200
 
     def corpus(self, ctx):
         return load_corpus()
@@ -681,7 +750,7 @@ class C07(Prop):
         for i in range(n):
             r = rng.fork("c%d" % i)
             c = gen_case(r)
-            if mods and r.chance(1, 2):
+            if mods and r.chance(3, 5):
                 add_probes(r.fork("probe"), c, mods)
             out.append(json.loads(json.dumps(c, default=lambda b: list(b))))
         return out
